@@ -149,7 +149,8 @@ Definition sv_rule_root_distinct (s : schema) : bool := sv_nodup (sv_roots s).
 (* ---------------------------------------------------------------- reserved names (3.4 Types, 3.6, 3.9, 3.10, 3.13)
    "must not have a name which begins with the characters __" for types, fields, arguments, enum values
    (through Name rules of 3.9: graphql-js validateName applies it to every named element), input fields
-   and directives.  The introspection system's own definitions are exempt. *)
+   and directives.  The introspection system's own definitions are exempt (what a user's extension adds to
+   them is not). *)
 
 Definition sv_reserved (n : str) : bool :=
   match n with 95 :: 95 :: _ => true | _ => false end.
@@ -157,16 +158,22 @@ Definition sv_reserved (n : str) : bool :=
 Definition sv_args_names_ok (args : list inputvaldef) : bool :=
   forallb (fun a => negb (sv_reserved (iv_name a))) args.
 
+(* a component written by the built-in definition itself (not added by a user's extension of it) *)
+Definition sv_exempt {A : Type} (builtin : bool) (c : comp A) : bool :=
+  builtin && match c_origin c with ODef => true | OExt _ => false end.
+
+Definition sv_field_names_ok (f : fielddef) : bool :=
+  negb (sv_reserved (fd_name f)) && sv_args_names_ok (fd_args f).
+
 Definition sv_type_names_ok (t : ext_type) : bool :=
-  et_builtin t ||
-  (negb (sv_reserved (et_name t)) &&
-   match t with
-   | EObject _ _ _ _ fs _ | EInterface _ _ _ _ fs _ =>
-       forallb (fun f => negb (sv_reserved (fd_name f)) && sv_args_names_ok (fd_args f)) (sv_vals fs)
-   | EEnum _ _ _ vs _ => forallb (fun v => negb (sv_reserved (ev_value v))) (sv_vals vs)
-   | EInput _ _ _ fs _ => sv_args_names_ok (sv_vals fs)
-   | _ => true
-   end).
+  (et_builtin t || negb (sv_reserved (et_name t))) &&
+  match t with
+  | EObject _ _ _ _ fs b | EInterface _ _ _ _ fs b =>
+      forallb (fun c => sv_exempt b c || sv_field_names_ok (c_val c)) fs
+  | EEnum _ _ _ vs b => forallb (fun c => sv_exempt b c || negb (sv_reserved (ev_value (c_val c)))) vs
+  | EInput _ _ _ fs b => forallb (fun c => sv_exempt b c || negb (sv_reserved (iv_name (c_val c)))) fs
+  | _ => true
+  end.
 
 Definition sv_dirdef_names_ok (d : dirdef) : bool :=
   dd_builtin d || (negb (sv_reserved (dd_name d)) && sv_args_names_ok (dd_args d)).
@@ -699,3 +706,62 @@ Definition sv_schema_valid (p : sv_params) (s : schema) : bool :=
 (* the verdict compared with Schema::parse_and_validate(..).is_ok() *)
 Definition sv_verdict (p : sv_params) (build_errors : N) (s : schema) : bool :=
   (build_errors =? 0) && sv_schema_valid p s.
+
+Definition sv_rules_except_fields_unique (p : sv_params) : list (schema -> bool) :=
+  [ sv_rule_root_query; sv_rule_root_object; sv_rule_root_distinct;
+    sv_rule_reserved_names;
+    sv_rule_fields_nonempty; sv_rule_field_output_types; sv_rule_arg_input_types; sv_rule_arg_unique;
+    sv_rule_implements_targets; sv_rule_no_self_implement; sv_rule_transitive_interfaces;
+    sv_rule_interface_fields_present; sv_rule_interface_field_types; sv_rule_interface_field_args;
+    sv_rule_interface_extra_args;
+    sv_rule_union_nonempty; sv_rule_union_members_object;
+    sv_rule_enum_nonempty; sv_rule_enum_value_names;
+    sv_rule_input_nonempty; sv_rule_input_field_types; sv_rule_input_no_nonnull_cycle;
+    sv_rule_dirdef_arg_types; sv_rule_dirdef_no_self_ref; sv_rule_builtin_redefinition p;
+    sv_rule_dir_defined; sv_rule_dir_location; sv_rule_dir_unique; sv_rule_dir_known_args;
+    sv_rule_dir_arg_unique; sv_rule_dir_required_args;
+    sv_rule_dir_arg_values p;
+    sv_rule_default_values p ].
+
+(* ---------------------------------------------------------------- known-finding classes (decidable, as narrow
+   as the defects found by the tie; see known_findings.d/C14.json).  Not part of the specification. *)
+
+(* class builtin_scalar_directives: the schema is invalid only because of directives applied to a built-in
+   scalar (reachable only through `extend scalar Int @x`): apollo-compiler does not validate them *)
+Definition sv_strip_builtin_scalar_dirs (s : schema) : schema :=
+  {| sch_def := sch_def s; sch_dirdefs := sch_dirdefs s;
+     sch_types := map (fun t => match t with
+                                | EScalar d n _ true => EScalar d n [] true
+                                | t => t
+                                end) (sch_types s) |}.
+Definition sv_known_builtin_scalar_directives (p : sv_params) (s : schema) : bool :=
+  negb (sv_schema_valid p s) && sv_schema_valid p (sv_strip_builtin_scalar_dirs s).
+
+(* class nested_scalar_object_dup: the only violated rule is 5.6.3 and every repeated field name sits in an
+   object literal nested inside the object literal of a custom scalar (positions a type-directed walk
+   does not reach: it stops at the object literal given for a scalar) *)
+Definition sv_item_type (t : ty) : ty :=
+  match t with TList x | TNonNullList x => x | t => t end.
+Fixpoint sv_value_dup_reached (s : schema) (v : value) (t : ty) {struct v} : bool :=
+  match v with
+  | VList l => forallb (fun x => sv_value_dup_reached s x (sv_item_type t)) l
+  | VObject fs =>
+      sv_nodup (map fst fs) &&
+      match sv_lookup s (inner_named_type t) with
+      | Some (EInput _ _ _ ifs _) =>
+          forallb (fun nx => match sv_find_arg (fst nx) (sv_vals ifs) with
+                             | Some f => sv_value_dup_reached s (snd nx) (iv_ty f)
+                             | None => true
+                             end) fs
+      | _ => true
+      end
+  | _ => true
+  end.
+Definition sv_known_nested_scalar_object_dup (p : sv_params) (s : schema) : bool :=
+  negb (sv_rule_dir_arg_input_fields_unique s)
+  && forallb (fun r => r s) (sv_rules_except_fields_unique p)
+  && sv_over_defined_dirs s (fun _ d def =>
+       forallb (fun a => match sv_find_arg (fst a) (dd_args def) with
+                         | Some ad => sv_value_dup_reached s (snd a) (iv_ty ad)
+                         | None => true
+                         end) (d_args d)).
